@@ -1,6 +1,7 @@
 (* MultiIO.v — decoding of C10 cases / encoding of observations for Multi.v. *)
 From Coq Require Import List Arith Bool.
 From M Require Import Sx Base Flat FlatIO Multi QueueIO.
+From M Require Hsm HsmIO.
 Import ListNotations.
 
 Definition d_class (x : sx) : option mclass :=
@@ -20,6 +21,7 @@ Definition d_op (x : sx) : option op :=
   | L [N 3; N e; t] => do t' <- d_trans t; Some (OAddTransition e t')
   | L [N 4; N m; bn; N e; N a] => do bn' <- d_bool bn; Some (OTrigger m bn' e a)
   | L [N 5; N e; N a] => Some (ODispatch e a)
+  | L [N 7] => Some OCopy
   | _ => None
   end.
 
@@ -139,6 +141,15 @@ Definition run_multi_case (x : sx) : sx :=
           let w0 := run k ev (graph_self k w1 self) (map (fun p => OAddTransition (fst p) (snd p)) it) in
           L [N 1; e_world n w0; L (run_mhistory k ev n hs w0)]
       | _, _, _, _, _, _, _ => L [N 0]
+      end
+  | L [N 3; mcx; dx; ax] =>
+      (* own initial states on a hierarchical machine: after every add the configuration of every model *)
+      match HsmIO.d_hmachine mcx, HsmIO.d_path dx, d_list (d_pair d_nat (d_option HsmIO.d_path)) ax with
+      | Some hm, Some dflt, Some adds =>
+          L [N 3; L (map (fun n => e_list (fun p => L [N (fst p); HsmIO.e_forest (snd p)])
+                                   (own_run (Hsm.hm_states hm) dflt (firstn n adds) []))
+                         (seq 1 (length adds)))]
+      | _, _, _ => L [N 0]
       end
   | L (N 2 :: rest) => run_queue_case (L rest)      (* queued machine, callbacks trigger / remove models: Queue.v *)
   | L [N 1; hx; d0x; d1x; cx] =>
